@@ -86,6 +86,19 @@ func (sig *PreSignature) VerifySignatureShares(shares map[party.ID]SignatureShar
 }
 
 func (sig *PreSignature) Validate() error {
+	if sig == nil || sig.R == nil || sig.RBar == nil || sig.S == nil || sig.KShare == nil || sig.ChiShare == nil {
+		return errors.New("presignature: missing fields")
+	}
+	for _, R := range sig.RBar.Points {
+		if R == nil {
+			return errors.New("presignature: RBar invalid")
+		}
+	}
+	for _, S := range sig.S.Points {
+		if S == nil {
+			return errors.New("presignature: S invalid")
+		}
+	}
 	if len(sig.RBar.Points) != len(sig.S.Points) {
 		return errors.New("presignature: different number of R,S shares")
 	}
